@@ -54,7 +54,7 @@ func firstAction(body *ast.BlockStmt, local map[string]*ast.FuncDecl, depth int)
 		}
 		if c, ok := n.(*ast.CallExpr); ok {
 			cs := callString(c)
-			if strings.HasSuffix(cs, ".wg.Done()") || strings.HasPrefix(cs, "log.") || cs == "recover()" {
+			if strings.HasSuffix(cs, ".Done()") && strings.Count(cs, ".") >= 2 || strings.HasPrefix(cs, "log.") || cs == "recover()" {
 				return true
 			}
 			if cs == "close()" && len(c.Args) == 1 && strings.HasSuffix(callString(c.Args[0]), ".done") {
@@ -80,6 +80,14 @@ func actionOf(c *ast.CallExpr, local map[string]*ast.FuncDecl, depth int) string
 		return firstAction(fd.Body, local, depth+1)
 	}
 	return name
+}
+
+// fieldPath drops the first component of a selector chain ("ps.wg" -> "wg", "f.srv.wg" -> "srv.wg")
+func fieldPath(s string) string {
+	if i := strings.Index(s, "."); i >= 0 {
+		return s[i+1:]
+	}
+	return s
 }
 
 // goTracking: for every `go` statement of the file, whether it is tracked by the WaitGroup (wg.Add before,
@@ -130,7 +138,10 @@ func goTracking(repo, rel string) ([]string, error) {
 						}
 					}
 					if i > 0 {
-						if es, ok := list[i-1].(*ast.ExprStmt); ok && strings.HasSuffix(callString(es.X), ".wg.Add()") {
+						// <x>.<group>.Add(…) right before the go statement, `defer <y>.<group>.Done()` first in the goroutine: the
+						// wait-group field may have any name, and the receiver may be named differently in a method
+						if es, ok := list[i-1].(*ast.ExprStmt); ok && strings.HasSuffix(callString(es.X), ".Add()") && strings.Count(callString(es.X), ".") >= 2 {
+							group := fieldPath(strings.TrimSuffix(callString(es.X), ".Add()"))
 							// the goroutine's body: a literal, or a function/method of this file started by name
 							var body *ast.BlockStmt
 							if fl, ok := g.Call.Fun.(*ast.FuncLit); ok {
@@ -139,7 +150,7 @@ func goTracking(repo, rel string) ([]string, error) {
 								body = fd.Body
 							}
 							if body != nil && len(body.List) > 0 {
-								if ds, ok := body.List[0].(*ast.DeferStmt); ok && strings.HasSuffix(callString(ds.Call), ".wg.Done()") {
+								if ds, ok := body.List[0].(*ast.DeferStmt); ok && strings.HasSuffix(callString(ds.Call), ".Done()") && fieldPath(strings.TrimSuffix(callString(ds.Call), ".Done()")) == group {
 									tracked = "tracked"
 								}
 							}
